@@ -83,6 +83,49 @@ theorem assignNames_shape (H : Name → Option Nat) (entries : List Entry) (used
     · obtain ⟨en', hen', h1, h2⟩ := ih _ p hp
       exact ⟨en', by simp [hen'], h1, h2⟩
 
+theorem firstFree_ne_base {used : List Name} {base : Name} {cand : Nat → Name} (h : firstFree used base cand ≠ base) :
+    base ∈ used := by
+  unfold firstFree at h
+  split at h
+  · exact absurd rfl h
+  · rename_i hc
+    simpa using hc
+
+/-- a numbered name is handed out only if the plain name was reserved / used before the pass or is handed out to
+another entry of the pass -/
+theorem assignNames_suffix_needed (H : Name → Option Nat) (entries : List Entry) (used : List Name) :
+    ∀ p ∈ assignNames H entries used, ∃ en ∈ entries, p.1 = en.path ∧
+      (p.2 = expandName H en.trace en.elem ∨
+        ((∃ i, 1 ≤ i ∧ p.2 = expandName H en.trace en.elem ++ dec i) ∧
+          (expandName H en.trace en.elem ∈ used ∨ expandName H en.trace en.elem ∈ (assignNames H entries used).map (·.2)))) := by
+  induction entries generalizing used with
+  | nil => intro p hp; cases hp
+  | cons en rest ih =>
+    intro p hp
+    simp only [assignNames, List.mem_cons] at hp
+    rcases hp with rfl | hp
+    · refine ⟨en, by simp, rfl, ?_⟩
+      rcases firstFree_cases used (expandName H en.trace en.elem) (fun i => expandName H en.trace en.elem ++ dec i) with h | ⟨i, hi, h⟩
+      · exact Or.inl h
+      · by_cases hb : firstFree used (expandName H en.trace en.elem) (fun i => expandName H en.trace en.elem ++ dec i) = expandName H en.trace en.elem
+        · exact Or.inl hb
+        · exact Or.inr ⟨⟨i, hi, h⟩, Or.inl (firstFree_ne_base hb)⟩
+    · obtain ⟨en', hen', h1, h2⟩ := ih _ p hp
+      refine ⟨en', by simp [hen'], h1, ?_⟩
+      rcases h2 with h2 | ⟨h2, h3⟩
+      · exact Or.inl h2
+      · refine Or.inr ⟨h2, ?_⟩
+        rcases h3 with h3 | h3
+        · simp only [List.mem_append, List.mem_singleton] at h3
+          rcases h3 with h3 | h3
+          · exact Or.inl h3
+          · right
+            simp only [assignNames, List.map_cons, List.mem_cons]
+            exact Or.inl h3
+        · right
+          simp only [assignNames, List.map_cons, List.mem_cons]
+          exact Or.inr h3
+
 /-- the numeric suffix appears only on a clash: if the plain name is neither reserved nor taken, it is used unchanged -/
 theorem assignNames_head_plain (H : Name → Option Nat) (en : Entry) (rest : List Entry) (used : List Name)
     (h : expandName H en.trace en.elem ∉ used) :
